@@ -146,7 +146,24 @@ def spec_simplernn(q, a, p):
   return (out, [out])
 
 
-def relational(cls_path, weights, extra_attrs=None, call_args=None, bias_flag="use_bias"):
+def find_term(t, op):
+  """first sub-term with the given operator (depth first)"""
+  if isinstance(t, Term):
+    if t.op == op:
+      return t
+    for a in list(t.args) + [v for _, v in t.kw]:
+      r = find_term(a, op)
+      if r is not None:
+        return r
+  elif isinstance(t, (list, tuple)):
+    for a in t:
+      r = find_term(a, op)
+      if r is not None:
+        return r
+  return None
+
+
+def relational(cls_path, weights, extra_attrs=None, call_args=None, bias_flag="use_bias", extra_check=None):
   """call(weights w, quantizers present) == call(weights q(w), no quantizers): the layer with quantizers computes what
   the same layer computes on pre-quantized weights (the quantizer-free body is the stock Keras computation, K1')."""
   def make(pattern):
@@ -211,6 +228,9 @@ def relational(cls_path, weights, extra_attrs=None, call_args=None, bias_flag="u
       if missing:
         s.info["raised"] = "weights never used in the result: %s" % missing
       s.claim("weights_all_used", not missing)
+      if extra_check is not None:
+        for cname, ok in extra_check(res[0]):
+          s.claim(cname, bool(ok))
       # the quantizers are really used: with a quantizer present the result must mention it
       if any(pattern["q"][i] for i in range(len(weights)) if weights[i][0] != "bias" or pattern["use_bias"]):
         s.claim("quantizer_applied", any(qn in repr(res[0]) for (wn, qn), pr in zip(weights, pattern["q"]) if pr))
@@ -279,13 +299,33 @@ def cases(tier):
   tr_attrs = conv_attrs(["filters"])
   tr_attrs.update({"padding": "valid", "data_format": "channels_last", "output_padding": None})
   tr_attrs.update({"strides": (hp("s0"), hp("s1")), "dilation_rate": (hp("d0"), hp("d1")), "kernel_size": (hp("k0"), hp("k1"))})
+  def tr_geometry(t):
+    c = find_term(t, "K.conv2d_transpose")
+    if c is None:
+      return [("uses_conv2d_transpose", False)]
+    kw = dict(c.kw)
+    return [("uses_conv2d_transpose", True),
+            ("transpose_hyper_parameters", tuple(kw.get("strides", ())) == (hp("s0"), hp("s1")) and kw.get("padding") == "valid"
+             and kw.get("data_format") == "channels_last" and tuple(kw.get("dilation_rate", ())) == (hp("d0"), hp("d1")))]
   add(QC + "QConv2DTranspose.call", "QConv2DTranspose",
-      relational(QC + "QConv2DTranspose", [("kernel", "kernel_quantizer"), ("bias", "bias_quantizer")], extra_attrs=tr_attrs), 2, 1)
+      relational(QC + "QConv2DTranspose", [("kernel", "kernel_quantizer"), ("bias", "bias_quantizer")], extra_attrs=tr_attrs,
+                 extra_check=tr_geometry), 2, 1)
   sep1 = conv_attrs(["padding", "data_format"])
   sep1.update({"strides": (hp("s0"),), "dilation_rate": (hp("d0"),)})
+  def sep1_geometry(t):
+    """stock SeparableConv1D (K1, made explicit): the 1-D problem is run as a 2-D one with a dummy axis inserted BEFORE
+    the length axis, so strides are (s, s) and the dilation is (1, d): the user's dilation acts on the length axis"""
+    c = find_term(t, "K.separable_conv2d")
+    if c is None:
+      return [("uses_separable_conv2d", False)]
+    kw = dict(c.kw)
+    return [("uses_separable_conv2d", True),
+            ("dilation_on_length_axis", tuple(kw.get("dilation_rate", ())) == (1, hp("d0"))),
+            ("strides_both_axes", tuple(kw.get("strides", ())) == (hp("s0"), hp("s0"))),
+            ("padding_and_format", kw.get("padding") == hp("padding") and kw.get("data_format") == hp("data_format"))]
   add(QC + "QSeparableConv1D.call", "QSeparableConv1D",
       relational(QC + "QSeparableConv1D", [("depthwise_kernel", "depthwise_quantizer"), ("pointwise_kernel", "pointwise_quantizer"),
-                                           ("bias", "bias_quantizer")], extra_attrs=sep1), 3, 2)
+                                           ("bias", "bias_quantizer")], extra_attrs=sep1, extra_check=sep1_geometry), 3, 2)
   # recurrent cells: kernel / recurrent kernel / bias / state quantizers (state = the incoming states)
   def cell_args(nstates):
     def f(ip, with_q, pattern):
